@@ -1,2 +1,3 @@
 import Driver.Codec
 import Driver.Span
+import Driver.Lines
